@@ -21,6 +21,9 @@ use sync::*;
 mod network_channel;
 mod topology;
 
+#[cfg(all(feature = "verif", not(feature = "tokio")))]
+pub(crate) use sync::remote::{remote_recv as verif_remote_recv, remote_send as verif_remote_send};
+
 #[derive(Debug, Clone)]
 pub enum NetworkDataIterator<T> {
     Batch(std::vec::IntoIter<T>),
@@ -109,6 +112,14 @@ impl<T> NetworkMessage<T> {
         Self {
             data: NetworkData::Batch(data),
             sender,
+        }
+    }
+
+    /// The elements of the batch, for the verification observers.
+    #[cfg(feature = "verif")]
+    pub(crate) fn verif_elements(&self) -> &[StreamElement<T>] {
+        match &self.data {
+            NetworkData::Batch(v) => v,
         }
     }
 
